@@ -66,41 +66,46 @@ func bufferDecisionAtomic(c *Ctx, rule string) {
 	c.Ob(rule, "sio.clientSocket.emitBuffered/clears-under-receiveBufferMu", ebf.Pos(), okClear, "emitBuffered must clear the receive buffer while receiveBufferMu is held")
 }
 
-// deferredAckNotSuppressed (C03-D9): emitBuffered marks an ack id as answered only when the handler has no ack function.
+// deferredAckNotSuppressed (C03-D9): emitBuffered itself neither records an ack id as answered nor sends an ACK — both
+// happen only in the sendAck closure, i.e. when a handler calls its ack function (F38, F42).
 func deferredAckNotSuppressed(c *Ctx, rule string) {
 	p := c.P
 	fn := p.Fn("sio", "clientSocket.emitBuffered")
-	n := 0
-	for _, f := range WithAnons(fn) {
-		if f != fn {
-			continue // the sendAck closure marks the id when the handler's ack function is called: that is the legitimate mark
-		}
-		for _, b := range f.Blocks {
-			for _, in := range b.Instrs {
-				mu, ok := in.(*ssa.MapUpdate)
-				if !ok || Term(mu.Value) != "true" || !strings.Contains(Term(mu.Map), "ackIDs") {
-					continue
-				}
-				n++
-				guarded := false
-				for _, g := range Guards(in) {
-					// the result of callEvent (does the handler take an ack function?) must be false here
-					t := Term(g.Cond)
-					if strings.Contains(t, "callEvent(") && !strings.Contains(t, "==") && !g.Val {
-						guarded = true
-					}
-					if u, isU := g.Cond.(*ssa.UnOp); isU && u.Op == token.NOT && strings.Contains(Term(u.X), "callEvent(") && g.Val {
-						guarded = true
-					}
-				}
-				c.Ob(rule, fmt.Sprintf("sio.clientSocket.emitBuffered/marks-sent-only-without-ack-func#%d", n), in.Pos(), guarded,
-					fmt.Sprintf("emitBuffered records the ack id as answered under %v, i.e. also when the handler HAS an ack function: a handler that calls its ack function after returning (the normal asynchronous use) finds the id already marked, and sendAck drops the reply — the peer's callback never runs", GuardTerms(in)))
+	marks, sends := 0, 0
+	var pos ssa.Instruction
+	for _, b := range fn.Blocks {
+		for _, in := range b.Instrs {
+			if mu, ok := in.(*ssa.MapUpdate); ok && Term(mu.Value) == "true" && strings.Contains(Term(mu.Map), "ackIDs") {
+				marks++
+				pos = in
 			}
 		}
 	}
-	if n == 0 {
-		c.Undecided("%s: emitBuffered no longer marks ack ids (ackIDs[..] = true not found)", rule)
+	for _, cs := range CallsTo(Calls(fn), `\(\*sio\.clientSocket\)\.sendAckPacket`) {
+		if cs.Instr.Parent() == fn {
+			sends++
+			pos = cs.Instr
+		}
 	}
+	at := fn.Pos()
+	if pos != nil {
+		at = pos.Pos()
+	}
+	c.Ob(rule, "sio.clientSocket.emitBuffered/acks-only-through-the-ack-function", at, marks == 0 && sends == 0,
+		fmt.Sprintf("emitBuffered itself records ack ids as answered (%d) / sends ACK packets (%d): an empty ACK made up for a handler without an ack function uses up the id, and the real reply — of this handler later, or of another handler of the same event — is dropped by sendAck; on the direct path nothing is acknowledged unless a handler calls its ack function", marks, sends))
+	// the closure handed to callEvent is the one place that does both, at most once per id
+	n := 0
+	for _, f := range WithAnons(fn) {
+		if f == fn {
+			continue
+		}
+		for _, cs := range CallsTo(Calls(f), `\(\*sio\.clientSocket\)\.sendAckPacket`) {
+			if cs.Instr.Parent() == f {
+				n++
+			}
+		}
+	}
+	c.Ob(rule, "sio.clientSocket.emitBuffered/ack-function-sends", fn.Pos(), n >= 1, "no closure of emitBuffered sends the ACK: a buffered event could never be acknowledged")
 }
 
 // replacementAckHeadGuard (C03-D10): the retry queue's replacement ack acts only while its packet is the head.
@@ -150,5 +155,52 @@ func replacementAckHeadGuard(c *Ctx, rule string) {
 	}
 	if n == 0 {
 		c.Undecided("%s: no pop / user-ack call found in the replacement ack of addToQueue", rule)
+	}
+}
+
+// subEventsRegisteredOnce (C18-D10): Connect called twice registers the socket's manager handlers once (F43).
+func subEventsRegisteredOnce(c *Ctx, rule string) {
+	p := c.P
+	fn := p.Fn("sio", "clientSocket.registerSubEvents")
+	li := Locks(fn)
+	regs := CallsTo(Calls(fn), `\(\*sio\.handlerStore\[T\]\)\.onSubEvent`)
+	if len(regs) == 0 {
+		c.Undecided("%s: no onSubEvent call in clientSocket.registerSubEvents", rule)
+		return
+	}
+	for _, r := range regs {
+		if r.Instr.Parent() != fn {
+			continue
+		}
+		guarded := false
+		for _, g := range Guards(r.Instr) {
+			t := Term(g.Cond)
+			// "not registered yet": the deregistration closure is still nil, or the active flag is still false
+			if (strings.Contains(t, "subDeregister != nil") && !g.Val) || (strings.Contains(t, "subDeregister == nil") && g.Val) || (strings.HasSuffix(t, ".active") && !g.Val) {
+				guarded = true
+			}
+		}
+		c.Ob(rule, "sio.clientSocket.registerSubEvents/once", r.Pos(), guarded && li.HoldsW(r.Instr, "s.activeMu"),
+			fmt.Sprintf("the socket's open/error/close handlers are registered on the manager under %v, i.e. again on every Connect before the socket is connected: one close of the manager then runs the socket's OnDisconnect handlers once per Connect call (the reference client returns early when its subscriptions exist)", GuardTerms(r.Instr)))
+	}
+}
+
+// refusedSocketLeavesNothing (C12-D7): the refusal path of Namespace.add leaves the rooms (F44).
+func refusedSocketLeavesNothing(c *Ctx, rule string) {
+	p := c.P
+	fn := p.Fn("sio", "Namespace.add")
+	rms := CallsTo(Calls(fn), `\(\*sio\.Namespace\)\.runMiddlewares`)
+	if len(rms) == 0 {
+		c.Undecided("%s: no runMiddlewares call in Namespace.add", rule)
+		return
+	}
+	for _, rm := range rms {
+		call, ok := rm.Instr.(*ssa.Call)
+		if !ok {
+			continue
+		}
+		as := nonNilAssumes(fn, call)
+		skip, trail := PrunedCanReach(fn, rm.Instr, as, nil, callPred(`\(\*sio\.serverSocket\)\.leaveAll`))
+		c.Ob(rule, "sio.Namespace.add/refused-socket-leaves-its-rooms", rm.Pos(), !skip && len(as) > 0, "after a middleware refused the socket, add returns without leaveAll(): rooms a middleware (or the restored session) joined it to stay in the adapter for ever, one set per refused attempt — SocketRooms and room broadcasts still see the sid: "+trailString(p, trail))
 	}
 }
